@@ -115,6 +115,7 @@ class Obj:
     def __init__(self, cls: ClassInfo):
         self.cls = cls
         self.attrs = {}
+        self._born = core._clock()
 
     def __repr__(self):
         return f'<{self.cls.name} object>'
@@ -641,6 +642,7 @@ class Interp:
 
     def setattr(self, obj, name, value):
         if isinstance(obj, (Obj, ExcObj)):
+            core.foreach_guard(getattr(obj, '_born', 0), f'store to attribute {name!r} of an object')
             obj.attrs[name] = value
             return
         if isinstance(obj, ClassInfo):
@@ -972,21 +974,51 @@ class Interp:
         if not hasattr(seq, 'at'):
             raise Unsupported('loop over a symbolic sequence without element access')
         c = core.ctx()
+        if c.branch(core.zint(seq.length) == 0):
+            return          # no iteration at all: the code after the loop is explored for the empty sequence on its own path
         k = c.fresh_int('iter')
         c.assume(k >= 0)
         c.assume(k < seq.length)
-        c.lib_used.add('FOREACH (independent iterations emitting trace events, decided at a Skolem iteration)')
+        c.lib_used.add('FOREACH (independent iterations emitting trace events, decided at a Skolem iteration; frame condition: the body '
+                       'modifies no list / dict / object / array that existed before the loop, except by appending to a list: COLLECT)')
         n0 = len(c.events)
-        self.assign(st.target, seq.at(k), env)
+        c.clock += 1
+        frame = core.ForeachFrame(c.clock)
+        c.foreach_stack.append(frame)
+        # lists the body appends to by name are collected on every path, also on those where this iteration appends nothing
+        for b in st.body:
+            for n in ast.walk(b):
+                if (isinstance(n, ast.Call) and isinstance(n.func, ast.Attribute) and n.func.attr == 'append'
+                        and isinstance(n.func.value, ast.Name)):
+                    try:
+                        lst = env.lookup(n.func.value.id)
+                    except KeyError:
+                        continue
+                    if isinstance(lst, core.TList) and lst._born < frame.start_clock and id(lst) not in frame.collected:
+                        if lst._coll is None:
+                            lst._coll = []
+                        frame.collected[id(lst)] = (lst, [])
         try:
-            self.exec_block(st.body, env)
-        except _Continue:
-            pass
-        except _Break:
-            raise Unsupported('break in a loop over a sequence of symbolic length')
+            self.assign(st.target, seq.at(k), env)
+            try:
+                self.exec_block(st.body, env)
+            except _Continue:
+                pass
+            except _Break:
+                raise Unsupported('break in a loop over a sequence of symbolic length')
+        finally:
+            c.foreach_stack.pop()
         sub = c.events[n0:]
         del c.events[n0:]
         c.event('foreach', it, k, sub)
+        # COLLECT: what this arbitrary iteration appended to lists that existed before the loop
+        for lst, items in frame.collected.values():
+            chunk = core.Collected(it, k, items)
+            outer = c.foreach_stack[-1] if c.foreach_stack else None
+            if outer is not None and lst._born < outer.start_clock:
+                outer.collect(lst, chunk)
+            else:
+                lst._coll.append(chunk)
         for name in assigned:
             env.vars.pop(name, None)       # values of one arbitrary iteration must not be used after the loop
 
@@ -1170,7 +1202,7 @@ class Interp:
         return tuple(self._elts(e.elts, env))
 
     def ex_List(self, e, env):
-        return list(self._elts(e.elts, env))
+        return core.TList(self._elts(e.elts, env))
 
     def ex_Set(self, e, env):
         return set(self._elts(e.elts, env))
@@ -1191,7 +1223,7 @@ class Interp:
                 d.update(self.eval(v, env))
             else:
                 d[self.eval(k, env)] = self.eval(v, env)
-        return d
+        return core.TDict(d)
 
     def ex_Attribute(self, e, env):
         return self.getattr(self.eval(e.value, env), e.attr)
@@ -1508,7 +1540,7 @@ class Interp:
             self._comp_with_first(e, env, lz[1], lambda ce: out.append(self.eval(e.elt, ce)))
         else:
             self._comp(e.generators, env, lambda ce: out.append(self.eval(e.elt, ce)))
-        return out
+        return core.TList(out)
 
     def _comp_with_first(self, e, env, first_iter, emit):
         gens = e.generators
@@ -1543,7 +1575,7 @@ class Interp:
             k = self.eval(e.key, ce)
             out[k] = self.eval(e.value, ce)
         self._comp(e.generators, env, emit)
-        return out
+        return core.TDict(out)
 
     def ex_GeneratorExp(self, e, env):
         lz = self._lazy_comp(e, env)
@@ -1668,32 +1700,181 @@ def _neg(x):
 
 
 def _loop_names(st):
-    """(names assigned in the loop body or target, names read before being assigned in straight-line order)"""
-    assigned = set()
-    for t in ast.walk(st.target):
-        if isinstance(t, ast.Name):
-            assigned.add(t.id)
+    """(names assigned in one iteration -- loop target and body, in the scope of the loop --, names that an iteration may read before it
+    has assigned them): flow-sensitive definite-assignment walk; comprehension targets and lambda / def parameters are local to them."""
+    stores = set()
     read_first = set()
-    seen_store = set(assigned)
 
-    def visit(node):
-        for n in ast.walk(node):
-            if isinstance(n, ast.Name):
-                if isinstance(n.ctx, ast.Load) and n.id not in seen_store and n.id in all_stores:
+    def target(t, defined):
+        for n in ast.walk(t):
+            if isinstance(n, ast.Name) and isinstance(n.ctx, (ast.Store, ast.Del)):
+                stores.add(n.id)
+                defined.add(n.id)
+            elif isinstance(n, ast.Name):
+                expr(n, defined)
+        # subscripts / attributes on the left read their base
+        for n in ast.walk(t):
+            if isinstance(n, (ast.Subscript, ast.Attribute)):
+                expr(n.value, defined)
+                if isinstance(n, ast.Subscript):
+                    expr(n.slice, defined)
+
+    def expr(e, defined, local=frozenset()):
+        if e is None:
+            return
+        if isinstance(e, ast.Name):
+            if isinstance(e.ctx, ast.Load) and e.id not in defined and e.id not in local:
+                read_first.add(e.id)
+            return
+        if isinstance(e, ast.NamedExpr):
+            expr(e.value, defined, local)
+            stores.add(e.target.id)
+            defined.add(e.target.id)
+            return
+        if isinstance(e, (ast.ListComp, ast.SetComp, ast.GeneratorExp, ast.DictComp)):
+            loc = set(local)
+            for g in e.generators:
+                expr(g.iter, defined, frozenset(loc))
+                for n in ast.walk(g.target):
+                    if isinstance(n, ast.Name):
+                        loc.add(n.id)
+                for cnd in g.ifs:
+                    expr(cnd, defined, frozenset(loc))
+            if isinstance(e, ast.DictComp):
+                expr(e.key, defined, frozenset(loc))
+                expr(e.value, defined, frozenset(loc))
+            else:
+                expr(e.elt, defined, frozenset(loc))
+            return
+        if isinstance(e, ast.Lambda):
+            loc = set(local) | {a.arg for a in e.args.args + e.args.kwonlyargs + e.args.posonlyargs}
+            if e.args.vararg:
+                loc.add(e.args.vararg.arg)
+            if e.args.kwarg:
+                loc.add(e.args.kwarg.arg)
+            for d in e.args.defaults + [d for d in e.args.kw_defaults if d is not None]:
+                expr(d, defined, local)
+            expr(e.body, defined, frozenset(loc))
+            return
+        for ch in ast.iter_child_nodes(e):
+            if isinstance(ch, ast.expr):
+                expr(ch, defined, local)
+            elif isinstance(ch, (ast.keyword,)):
+                expr(ch.value, defined, local)
+            elif isinstance(ch, ast.comprehension):
+                pass
+            elif isinstance(ch, (ast.slice,)) if hasattr(ast, 'slice') else False:
+                pass
+            else:
+                for sub in ast.walk(ch):
+                    if isinstance(sub, ast.expr) and sub is not ch:
+                        pass
+                for sub in ast.iter_child_nodes(ch):
+                    if isinstance(sub, ast.expr):
+                        expr(sub, defined, local)
+
+    def block(stmts, defined):
+        for b in stmts:
+            defined = stmt(b, defined)
+        return defined
+
+    def stmt(b, defined):
+        defined = set(defined)
+        if isinstance(b, ast.Assign):
+            expr(b.value, defined)
+            for t in b.targets:
+                target(t, defined)
+        elif isinstance(b, ast.AnnAssign):
+            if b.value is not None:
+                expr(b.value, defined)
+                target(b.target, defined)
+        elif isinstance(b, ast.AugAssign):
+            expr(b.value, defined)
+            if isinstance(b.target, ast.Name):
+                if b.target.id not in defined:
+                    read_first.add(b.target.id)
+                stores.add(b.target.id)
+                defined.add(b.target.id)
+            else:
+                expr(b.target.value, defined)
+        elif isinstance(b, (ast.For, ast.AsyncFor)):
+            expr(b.iter, defined)
+            inner = set(defined)
+            target(b.target, inner)
+            block(b.body, inner)
+            block(b.orelse, defined)
+            for n in ast.walk(b.target):
+                if isinstance(n, ast.Name):
+                    stores.add(n.id)
+        elif isinstance(b, ast.While):
+            expr(b.test, defined)
+            block(b.body, defined)
+            block(b.orelse, defined)
+        elif isinstance(b, ast.If):
+            expr(b.test, defined)
+            d1 = block(b.body, defined)
+            d2 = block(b.orelse, defined)
+            defined = d1 & d2
+        elif isinstance(b, (ast.With, ast.AsyncWith)):
+            for item in b.items:
+                expr(item.context_expr, defined)
+                if item.optional_vars is not None:
+                    target(item.optional_vars, defined)
+            defined = block(b.body, defined)
+        elif isinstance(b, ast.Try) or type(b).__name__ == 'TryStar':
+            d1 = block(b.body, defined)
+            for h in b.handlers:
+                hd = set(defined)
+                if h.type is not None:
+                    expr(h.type, hd)
+                if h.name:
+                    stores.add(h.name)
+                    hd.add(h.name)
+                block(h.body, hd)
+            d2 = block(b.orelse, d1)
+            block(b.finalbody, defined)
+            defined = (d2 & d1) if not b.handlers else set(defined)
+        elif isinstance(b, (ast.FunctionDef, ast.AsyncFunctionDef)):
+            loc = {a.arg for a in b.args.args + b.args.kwonlyargs + b.args.posonlyargs}
+            for n in ast.walk(b):
+                if isinstance(n, ast.Name) and isinstance(n.ctx, ast.Store):
+                    loc.add(n.id)
+            for n in ast.walk(b):
+                if isinstance(n, ast.Name) and isinstance(n.ctx, ast.Load) and n.id not in loc and n.id not in defined:
                     read_first.add(n.id)
-        for n in ast.walk(node):
-            if isinstance(n, ast.Name) and isinstance(n.ctx, ast.Store):
-                seen_store.add(n.id)
-    all_stores = set(assigned)
-    for b in st.body:
-        for n in ast.walk(b):
-            if isinstance(n, ast.Name) and isinstance(n.ctx, ast.Store):
-                all_stores.add(n.id)
-            if isinstance(n, ast.AugAssign) and isinstance(n.target, ast.Name):
-                read_first.add(n.target.id)
-    for b in st.body:
-        visit(b)
-    return all_stores, read_first
+                if isinstance(n, ast.Nonlocal):
+                    for nm in n.names:
+                        stores.add(nm)
+                        read_first.add(nm)
+            stores.add(b.name)
+            defined.add(b.name)
+        elif isinstance(b, ast.ClassDef):
+            stores.add(b.name)
+            defined.add(b.name)
+        elif isinstance(b, (ast.Import, ast.ImportFrom)):
+            for a in b.names:
+                nm = (a.asname or a.name).split('.')[0]
+                stores.add(nm)
+                defined.add(nm)
+        elif isinstance(b, ast.Delete):
+            for t in b.targets:
+                target(t, defined)
+        elif isinstance(b, (ast.Global, ast.Nonlocal)):
+            for nm in b.names:
+                stores.add(nm)
+                read_first.add(nm)
+        elif isinstance(b, ast.Match) if hasattr(ast, 'Match') else False:
+            raise Unsupported('match statement in a loop over a symbolic sequence')
+        else:
+            for ch in ast.iter_child_nodes(b):
+                if isinstance(ch, ast.expr):
+                    expr(ch, defined)
+        return defined
+
+    defined = set()
+    target(st.target, defined)
+    block(st.body, defined)
+    return stores, read_first & stores
 
 
 def _contains_yield(node):
